@@ -177,6 +177,7 @@ def gen_case(rng, tier, g):
             'failed_write_before': [i for i, h in enumerate(hist)
                                     if h[0] == 'TO' and rng.random() < 0.2],
             'failed_at': rng.randint(0, 6),
+            'fluent': rng.random() < 0.15,
             'failed_mode': rng.choice(['source', 'source', 'sink']),
             'srcobj': rng.choice([None, None, 'object', 'bgz'])
             if target.startswith('path') else None,
@@ -341,7 +342,14 @@ def _json_header_read(e, rd, table, lines):
     return got, want
 
 
+_FLUENT = [False]
+
+
 def _write(e, fmt, op, table, tgt, args, wh):
+    if _FLUENT[0]:
+        # table.tocsv(...) instead of petl.tocsv(table, ...)
+        from sim.loader import Fluent
+        e = Fluent(e)
     a = dict(args)
     src = tgt
     if fmt in ('csv', 'tsv'):
@@ -370,6 +378,7 @@ def _default_wh(fmt, op):
 
 
 def run_case(case):
+    _FLUENT[0] = bool(case.get('fluent'))
     e = load_petl()
     log = Log()
     fmt, kind, args = case['fmt'], case['target'], case['args']
